@@ -132,4 +132,11 @@ def main(argv):
             results.extend(res)
         else:
             results.append(res)
-    return report.finish(args.prop, args.tier, results, t0, level=spec["level"], configs=configs)
+    renames = {}
+    for c, f in facts.items():
+        for newp, oldp in getattr(f, "renames", {}).items():
+            renames[newp] = oldp
+    for newp, oldp in sorted(renames.items()):
+        print("NOTE: function %s is analysed as the renamed/moved anchor %s (same signature; tables/fn_names.json)" % (newp, oldp))
+    return report.finish(args.prop, args.tier, results, t0, level=spec["level"], configs=configs,
+                         extra={"renamed_anchors": renames} if renames else None)
